@@ -243,7 +243,7 @@ class C31(Check):
     assumptions = ["the textbook power-series recurrences in pbt/seriesref.py (cross-checked against numerical "
                    "differentiation) are the reference", "principal branches; all constant terms are real",
                    "library exceptions (NotImplementedError ...) decline a case"]
-    tiers = {"quick": {"examples": 900, "shrink_calls": 40}, "thorough": {"examples": 24000, "shrink_calls": 80}}
+    tiers = {"quick": {"examples": 900, "shrink_calls": 40}, "thorough": {"examples": 16000, "shrink_calls": 80}}
 
     def setup_worker(self, tier):
         # start the driver with a generous time-out: under load the first answer of a freshly started
@@ -365,6 +365,7 @@ class C31(Check):
                         self.skip("taylor:unstable")
             except (Unjudgeable, ZeroDivisionError, ValueError, OverflowError, mpmath.libmp.NoConvergence):
                 self.skip("taylor:unjudgeable")
+        fv = None
         try:
             with mp.workdps(90):
                 x0 = mpf(1) / 256
@@ -417,6 +418,20 @@ class C31(Check):
         if is_exc(res):
             self.skip("assert_seen" if res["exc"] == "VerifAssertFailure" else "declined:" + res["exc"])
             return
+        # The property is about series() of the expression the library holds.  If *constructing* the
+        # expression already changed its value (C07/C08's property, e.g. a function constructor that
+        # mis-simplifies its argument), series() is not to blame: such cases are counted and not judged.
+        if fv is not None:
+            try:
+                with mp.workdps(90):
+                    e2 = dict(on.env_mp(envs))
+                    e2["x"] = mpf(1) / 256
+                    cv = on.Evaluator(e2).value(canon)
+                    if abs(cv - fv) > mpf(10) ** -25 * max(1, abs(fv)):
+                        self.skip("construction_changed_value")
+                        return
+            except Unjudgeable:
+                pass
         if self.tag_active("series_quotient_precision") and quot:
             upto = lib_valid_terms(canon, n, env)
             if upto < n:
